@@ -730,7 +730,7 @@ func runC16(r *Run) {
 		r.Floor("R12", "narrowings of ABI integers in precompiles", nN, 1)
 	}
 	r.Rule("R11", "see C02 R4t (imported, mirror targets): a StateDB balance write made by a handler is a mirror of the native message's bank change only if the account's state object was loaded before that change (the frame's caller, the origin, or an address read through the StateDB before the effect); a 'mirror' for any other address — a withdraw address, a validator account — is applied on top of a balance that already contains the change, so the precompile credits twice what the native message credits")
-	r.Import("R11/C02.", []string{"R4t"}, runC02)
+	r.Import("R11/C02.", []string{"R4t", "R11", "R18"}, runC02)
 	r.Rule("R14", "PATH.native-answer-of-any-length: the native message or query decides how many coins its answer carries (none when a commission or reward truncates to nothing, several under a multi-denomination reward) and succeeds in every case; a precompile function therefore takes a figure out of an sdk.Coins / sdk.DecCoins value by denomination (AmountOf) or by ranging over it, or indexes it at a constant position only where a test of len() of that same value dominates the access — an unguarded coins[k] panics (the call reverts) exactly where the native message succeeds")
 	{
 		isCoins := func(t types.Type) bool {
@@ -993,6 +993,46 @@ func runC16(r *Run) {
 		}
 		r.Check(orderOK && teeth, "R17", fnID(fn)+"#active-precompiles-are-available", P.Pos(fnPos(fn)), "SetParams only after IsAvailablePrecompile, whose failing side never stores",
 			"a parameter set is stored without checking that every active precompile can be instantiated: one unknown address makes every later EVM message panic", P.witness(w)...)
+	}
+	r.Rule("R18", "FLOW.bank-figures-are-the-bank's-own: what the bank precompile packs as a balance or a supply is the amount the bank keeper returned — no sdk.Int arithmetic (Sub, Add, Mul, Quo) lies between the keeper read and the packed value, in the handler or in a helper it calls: a supply 'net of the erc20 escrow' or a balance 'plus the token holdings' is another figure than the bank module reports")
+	{
+		nQ := 0
+		for _, id := range []string{"(precompiles/bank.Precompile).Balances", "(precompiles/bank.Precompile).TotalSupply", "(precompiles/bank.Precompile).SupplyOf"} {
+			fn, ok := P.FnOK(id)
+			if !ok {
+				r.Bad("R18", "anchor/"+id, "", "not found")
+				continue
+			}
+			nQ++
+			bad := ""
+			var scan func(f *ssa.Function, depth int)
+			seenF := map[*ssa.Function]bool{}
+			scan = func(f *ssa.Function, depth int) {
+				if f == nil || f.Blocks == nil || seenF[f] || depth > 2 {
+					return
+				}
+				seenF[f] = true
+				for _, g := range withAnon(f) {
+					eachCall(g, func(ci CallInfo) {
+						if ci.Recv == "Int" && strings.HasSuffix(ci.PkgPath, "cosmossdk.io/math") {
+							switch ci.Name {
+							case "Sub", "Add", "Mul", "Quo", "SubRaw", "AddRaw", "MulRaw", "QuoRaw", "Neg":
+								if bad == "" {
+									bad = ci.Name + " at " + P.Pos(instrPos(ci.Instr))
+								}
+							}
+						}
+						if ci.Static != nil && strings.Contains(fnPkgPath(ci.Static), "/precompiles/bank") {
+							scan(ci.Static, depth+1)
+						}
+					})
+				}
+			}
+			scan(fn, 0)
+			r.Check(bad == "", "R18", fnID(fn)+"#figures-unedited", P.Pos(fnPos(fn)), "no sdk.Int arithmetic between the bank read and the packed answer",
+				"the bank precompile computes with the amounts it read ("+bad+"): the figure it reports is no longer the bank module's balance or supply")
+		}
+		r.Floor("R18", "bank precompile read methods", nQ, 3)
 	}
 	// RunSetup
 	if rs, ok := P.FnOK("(precompiles/common.Precompile).RunSetup"); ok {
